@@ -1,4 +1,5 @@
 import FrappyProofs.Lemmas.Control
+import FrappyProofs.Lemmas.ExtParams
 import FrappyProofs.Lemmas.Logging
 import FrappyProofs.Lemmas.Rotate
 import FrappyProofs.Props.C18
